@@ -134,6 +134,17 @@ def RawAtom.attrsEq (a b : RawAtom) : Bool :=
    | .assign => sameSet (fv a.expr) (fv b.expr)
    | _ => a.expr == b.expr)
 
+/-- `transformer._same_definition` -/
+def sameDefinition (a b : RawAtom) : Bool := a.attrsEq b && a.expr == b.expr
+
+/-- sequential duplicate check of `TreeToODE.ode` with the dictionary `defined` (latest atom per name) -/
+def seqCheck : List RawAtom → List RawAtom → Bool
+  | _, [] => true
+  | defined, a :: rest =>
+    match defined.find? (·.name == a.name) with
+    | some prev => sameDefinition prev a && seqCheck (a :: defined.filter (·.name != a.name)) rest
+    | none => seqCheck (a :: defined) rest
+
 def compsOf (cs : List String) : List String := if cs.isEmpty then [""] else cs.map remQuotes
 
 def atomsOfItem : Item → Except LoadErr (List RawAtom)
@@ -173,12 +184,6 @@ def derivState (n : Name) : Option Name :=
     some (String.ofList ((cs.drop 1).take (cs.length - 4)))
   else none
 
-def insertSorted {β} (key : β → Name) (x : β) : List β → List β
-  | [] => [x]
-  | y :: rest => if key x < key y then x :: y :: rest else y :: insertSorted key x rest
-
-def sortByName {β} (key : β → Name) (l : List β) : List β := l.foldl (fun acc x => insertSorted key x acc) []
-
 structure Comp where
   name : String
   states : List Name
@@ -203,6 +208,9 @@ def distinctExprs (l : List Expr) : List Expr :=
 def loadItems (items : List Item) : Except LoadErr Loaded := do
   let atomLists ← items.mapM atomsOfItem
   let atoms := atomLists.flatten
+  -- transformer.TreeToODE.ode: a name may be written twice only with the same definition
+  -- (same kind, equal attributes and, for assignments, the same expression tree)
+  unless seqCheck [] atoms do throw .duplicate
   let comps := buildComps atoms
   -- Component._handle_assignments : pair derivatives with states of the same component
   let mut compsOut : List Comp := []
